@@ -7,6 +7,7 @@
 // except according to those terms.
 
 #![warn(missing_docs)]
+#![cfg_attr(rdest_verif, allow(missing_docs))]
 
 //! Rust is simple BitTorrent client, currently supporting
 //! [BEP3](https://www.bittorrent.org/beps/bep_0003.html) specification.
@@ -45,6 +46,9 @@ mod session;
 mod tracker_client;
 mod tracker_resp;
 mod utils;
+#[cfg(rdest_verif)]
+#[allow(missing_docs)]
+pub mod verif;
 
 pub use crate::error::Error;
 
